@@ -54,8 +54,9 @@ HDR = 'From ScaredV Require Import Model.Models Model.Container Model.Analysis.'
 CLASSES = ['CPA', 'DPA', 'ANOVA', 'NICV', 'SNR', 'MIA']
 PARTITIONED = ('ANOVA', 'NICV', 'SNR', 'MIA')
 PREPS = ['add1', 'reverse', 'square', 'pairprod', 'subfirst', 'cumsum']
+NAN_CODE, PINF_CODE, NINF_CODE = 1000001, 1000002, 1000003      # non-finite samples, as integers of the Coq model (Container.nan_code)
 PREP_COQ = {'add1': 'PAdd1', 'reverse': 'PReverse', 'square': 'PSquare', 'pairprod': 'PPairProd', 'subfirst': 'PSubFirst',
-            'cumsum': 'PCumsum'}
+            'cumsum': 'PCumsum', 'zeronan': 'PZeroNan'}
 DISCS = {'maxabs': 'DMaxabs', 'nanmax': 'DNanmax', 'opposite_min': 'DOppositeMin'}
 ITEMSIZE = {'uint8': 1, 'int8': 1, 'int16': 2, 'uint16': 2, 'float32': 4, 'int32': 4, 'float64': 8}
 
@@ -121,7 +122,12 @@ def prep_functions():
     def cumsum(traces):
         return np.cumsum(traces.astype('float64'), axis=1)
 
-    _preps.update(add1=add1, reverse=reverse, square=square, pairprod=pairprod, subfirst=subfirst, cumsum=cumsum)
+    @scared.preprocess
+    def zeronan(traces):
+        t = traces.astype('float64')
+        return np.where(t == 0, np.nan, t)
+
+    _preps.update(add1=add1, reverse=reverse, square=square, pairprod=pairprod, subfirst=subfirst, cumsum=cumsum, zeronan=zeronan)
     return _preps
 
 
@@ -131,7 +137,7 @@ def py_frame(fr, row):
     k = fr[0]
     if k in ('all', 'none'):
         return list(row)
-    if k in ('slice', 'range'):
+    if k in ('slice', 'range', 'pyslice'):
         return list(row[fr[1]:fr[2]:fr[3]])
     return [row[i] for i in fr[1]]
 
@@ -147,6 +153,8 @@ def py_prep(p, x):
         return [a * b for a, b in zip(x[:-1], x[1:])]
     if p == 'subfirst':
         return [v - x[0] for v in x]
+    if p == 'zeronan':
+        return [NAN_CODE if v == 0 else v for v in x]
     if p == 'cumsum':
         out, s = [], 0
         for v in x:
@@ -168,7 +176,7 @@ def py_frame_obj(fr):
         return None
     if k == 'all':
         return ...
-    if k == 'slice':
+    if k in ('slice', 'pyslice'):
         return slice(fr[1], fr[2], fr[3])
     if k == 'range':
         return range(fr[1], fr[2], fr[3])
@@ -242,7 +250,7 @@ def make_sf(guesses, poison=False):
     @scared.attack_selection_function(guesses=np.array(guesses, dtype='uint8'))
     def asf(plaintext, guesses):
         guard(plaintext)
-        out = np.empty((plaintext.shape[0], len(guesses), plaintext.shape[1]), dtype='uint8')
+        out = np.empty((plaintext.shape[0], len(guesses), plaintext.shape[1]), dtype=plaintext.dtype)
         for i, g in enumerate(guesses):
             out[:, i, :] = np.bitwise_xor(plaintext, g)
         return out
@@ -337,6 +345,11 @@ def raw_array(run):
     n = len(run['samples'])
     if run.get('wide'):
         return np.array(wide_full_samples(run), dtype=run['dtype']).reshape(n, -1)
+    if run.get('nans'):
+        a = np.array(run['samples'], dtype='float64').reshape(n, -1)
+        for code, v in ((NAN_CODE, np.nan), (PINF_CODE, np.inf), (NINF_CODE, -np.inf)):
+            a[a == code] = v
+        return a.astype(run['dtype'])
     a = np.array(run['samples'], dtype=run['dtype']).reshape(n, -1)
     if run.get('grid'):       # samples lie EXACTLY on the values of the grid (= the bin edges of the case): entry k is grid[k]
         g = np.asarray(grid_values(run['grid']), dtype='float64')
@@ -353,7 +366,7 @@ def make_ths(run):
     import estraces
     n = len(run['samples'])
     samples = raw_array(run)
-    pt = np.array(run['meta'], dtype='uint8').reshape(n, -1)
+    pt = np.array(run['meta'], dtype=run.get('meta_dtype', 'uint8')).reshape(n, -1)
     return estraces.read_ths_from_ram(samples=samples, plaintext=pt)
 
 
@@ -436,7 +449,7 @@ def build_container(case, run, containers, other_analysis, thss=None):
     return cont
 
 
-def int_rows(a, grid=None):
+def int_rows(a, grid=None, nonfinite=False):
     """Rows of a 2-D array as lists of ints; None when a value is not an integer.  With grid: the values must be EXACTLY float64
     values of the grid (their indices are returned) — a value that went through float32 or an integer dtype is not."""
     a = np.asarray(a)
@@ -450,6 +463,8 @@ def int_rows(a, grid=None):
             return None
         return [[int(v) for v in r] for r in k]
     a = a.reshape(a.shape[0], -1).astype('float64')
+    if nonfinite:
+        a = np.where(np.isnan(a), NAN_CODE, np.where(a == np.inf, PINF_CODE, np.where(a == -np.inf, NINF_CODE, a)))
     if not np.all(np.isfinite(a)) or not np.all(a == np.round(a)):
         return None
     return [[int(v) for v in r] for r in a]
@@ -471,7 +486,9 @@ def coq_setting(st):
     return '(BMb %s)' % C.coq_z(st[1])
 
 
-def coq_frame(fr):
+def coq_frame(fr, L=None):
+    if fr[0] == 'pyslice':       # backward / negative / open bounds: resolved by Python's own slice semantics, given to Coq as indices
+        return '(FIdx %s)' % C.coq_list(list(range(L))[fr[1]:fr[2]:fr[3]], C.coq_nat)
     if fr[0] in ('all', 'none'):
         return 'FAll'
     if fr[0] in ('slice', 'range'):
@@ -492,9 +509,17 @@ def coq_zrow(a, b):
 # ------------------------------------------------------------------------------------------- generators
 
 def gen_frame(rng, L, kind=None):
-    kind = kind or rng.choice(['none', 'all', 'slice', 'slice', 'range', 'list', 'list', 'array'])
+    kind = kind or rng.choice(['none', 'all', 'slice', 'slice', 'range', 'list', 'list', 'array', 'pyslice'])
     if kind in ('none', 'all'):
         return [kind]
+    if kind == 'pyslice':     # backward slices (reaching sample 0 or not), open and negative bounds
+        while True:
+            fr = rng.choice([[None, None, -1], [None, None, -2], [rng.randint(0, L - 1), None, -1], [rng.randint(0, L - 1), None, -2],
+                             [None, rng.randint(0, L - 1), -1], [-1, None, -1], [-rng.randint(1, L), None, 1], [None, -rng.randint(1, L - 1) if L > 1 else None, 1],
+                             [-rng.randint(1, L), -rng.randint(1, L), rng.choice([1, -1])], [rng.randint(0, L - 1), 0, -1],
+                             [-1, -L - 1, -1], [None, None, 2]])
+            if len(list(range(L))[fr[0]:fr[1]:fr[2]]) >= 1:
+                return ['pyslice'] + fr
     if kind in ('slice', 'range'):
         a = rng.randint(0, L - 1)
         b = rng.randint(a + 1, L + (1 if kind == 'slice' else 0))     # a slice may stop beyond the end (clipped)
@@ -589,7 +614,7 @@ def vary_frame(rng, frame, L):
 
 
 def make_case(rng, cls, attack, sizes_bs, L=None, frame_kind=None, nchain=3, dtype=None, leak=None, step=None, history=None,
-              wide=False, scaled=False, fail=None):
+              wide=False, scaled=False, fail=None, nans=False, wide16=False):
     """sizes_bs: list of (N, bs) — one per run().  step: convergence_step (attacks).  history: None | 'reuse' | 'pre' | 'both':
     the SAME Container object is used again after its public attributes were re-assigned / mutated in place.
     wide: full-byte metadata and guesses with the library's models incl. HammingWeight(nb_words = 2, 3) (class sets beyond 0..8).
@@ -600,9 +625,18 @@ def make_case(rng, cls, attack, sizes_bs, L=None, frame_kind=None, nchain=3, dty
     if scaled:
         dtype = 'float64'
         history = None          # the chains of a history do arithmetic: k/10 would not stay exact
+    if nans:                    # a few NaN / inf samples, raw and produced by a preprocess; chains that do no arithmetic on them
+        dtype = rng.choice(['float32', 'float64'])
+        history = None
+    if wide16:                  # 16-bit metadata words: intermediate values beyond one byte, growing after the first batch / run
+        wide = False
     W = rng.randint(1, 2)
     top_meta = 255 if wide else 15
-    if cls == 'DPA':
+    if wide16:
+        model = ['monobit', rng.randint(0, 8)] if cls == 'DPA' else ['value']       # Monobit only knows bits 0..8
+        if cls in PARTITIONED:
+            model = ['value']
+    elif cls == 'DPA':
         model = ['monobit', rng.randint(0, 7 if wide else 3)]
     elif wide:
         model = rng.choice([['value'], ['hw'], ['hww', 2], ['hww', 2], ['hww', 3], ['monobit', rng.randint(0, 7)]])
@@ -618,6 +652,8 @@ def make_case(rng, cls, attack, sizes_bs, L=None, frame_kind=None, nchain=3, dty
     chain = gen_chain(rng, L1, nchain)
     if scaled:
         chain = rng.choice([[], [], ['reverse']])
+    elif nans:
+        chain = rng.choice([[], [], ['reverse'], ['zeronan'], ['zeronan', 'reverse'], ['reverse', 'zeronan']])
     elif cls in PARTITIONED and not chain:
         # one numba compilation per (trace dtype, layout, precision, kernel): the partitioned classes always see float64 traces
         chain = ['add1']
@@ -627,6 +663,11 @@ def make_case(rng, cls, attack, sizes_bs, L=None, frame_kind=None, nchain=3, dty
     lo = 0 if dtype == 'uint8' else -3
     for ri, (N, bs) in enumerate(sizes_bs):
         meta = [[rng.randint(0, top_meta) for _ in range(W)] for _ in range(N)]
+        if wide16:
+            # the first run (or at least its first two traces) stays below 256, later values use the 16 bits
+            small = 2 if (ri == 0 and len(sizes_bs) == 1) or (ri == 0 and rng.random() < 0.3) else (N if ri == 0 else 0)
+            meta = [[rng.randint(0, 255) if i < small else rng.choice([rng.randint(256, 65535), rng.randint(0, 65535), 65535 - rng.randint(0, 3)])
+                     for _ in range(W)] for i in range(N)]
         if scaled:
             samples = [[rng.randint(0, scaled[1] - 1) for _ in range(L)] for _ in range(N)]
         elif leak:       # the metadata determines the samples (plus a little noise): a mis-pairing ruins the statistic
@@ -637,7 +678,15 @@ def make_case(rng, cls, attack, sizes_bs, L=None, frame_kind=None, nchain=3, dty
         fr = frame
         if ri > 0 and frame[0] in ('list', 'array') and rng.random() < 0.5:    # another frame of the same length
             fr = [frame[0], [rng.randrange(L) for _ in frame[1]]]
+        if nans:
+            samples = [list(r) for r in samples]
+            for _ in range(rng.choice([1, 1, 2, 3]) if N > 1 or ri == 0 else 0):
+                samples[rng.randrange(N)][rng.randrange(L)] = rng.choice([NAN_CODE, NAN_CODE, PINF_CODE, NINF_CODE])
         case['runs'].append({'samples': samples, 'meta': meta, 'dtype': dtype, 'frame': fr, 'chain': chain, 'bs': bs})
+        if nans:
+            case['runs'][-1]['nans'] = True
+        if wide16:
+            case['runs'][-1]['meta_dtype'] = 'uint16'
         if scaled:
             case['runs'][-1]['grid'] = scaled
     # container histories: "each run uses the attribute values current at that run"
@@ -674,6 +723,10 @@ def make_case(rng, cls, attack, sizes_bs, L=None, frame_kind=None, nchain=3, dty
             case['partitions'] = None
         else:
             case['partitions'] = list(range({'value': 256, 'hw': 9, 'monobit': 2}.get(model[0], 8 * (model[1] if model[0] == 'hww' else 1) + 1)))
+    elif cls in PARTITIONED and wide16:
+        # explicit classes above 255: the values that occur (the LUT of the partitioned distinguishers holds 2^17 values)
+        gs = guesses if guesses else [0]
+        case['partitions'] = sorted({v ^ g for r in case['runs'] for m in r['meta'] for v in m for g in gs})
     elif cls in PARTITIONED:
         top = 15 if model[0] == 'value' else 4
         if model[0] == 'value' and rng.random() < 0.25:
@@ -703,15 +756,15 @@ def make_case(rng, cls, attack, sizes_bs, L=None, frame_kind=None, nchain=3, dty
     for run in case['runs']:
         rows = [py_chain(run['chain'], py_frame(run['frame'], s)) for i, s in enumerate(run['samples'])
                 if not (run.get('fail') == i and run.get('fail_how') == 'preprocess')]
-        vals += [v for r in rows for v in r]
+        vals += [v for r in rows for v in r if v < NAN_CODE]
         size = max(len(rows[0]), len(py_frame(run['frame'], run['samples'][0])))
         # a used Container keeps its first trace_size (cached): histories stay away from tables, which look at it
         run['setting'] = gen_setting(rng, run.pop('bs'), size, len(py_frame(run['frame'], run['samples'][0])), ITEMSIZE[dtype],
                                      no_table=history is not None)
-    big = max(abs(v) for v in vals)
+    big = max([abs(v) for v in vals] or [0])
     if big > 2 ** 20:
         return None
-    if big <= 2 ** 8 and rng.random() < 0.5:
+    if big <= 2 ** 8 and rng.random() < 0.5 and not wide16:      # 16-bit intermediate values: sums of squares need float64
         case['prec'] = 'float32'
     if cls == 'MIA':
         lo_v, hi_v = min(vals), max(vals)
@@ -800,7 +853,8 @@ class RunKind(Kind):
             'frames None/Ellipsis/slice with step/range/index list and array with repeats, chains of 0-3 non-commuting row-wise '
             'preprocesses, 1-3 successive run() calls, float32/float64, attacks with and without convergence_step (step <,=,> bs, dividing N or '
             'not, > N, derived batch size not dividing the step with N a multiple of the step), full-byte metadata with HammingWeight(nb_words 1-3) / Monobit / Value and automatic class sets, MIA on float64 samples lying exactly on bin edges built five ways (linspace, arange/den, literals, cumsum, arange*step) '
-            'with every counter precision, runs that raise on a later batch between successful runs, wide traces (1001-1500 samples) with long index-array / list frames differing only in the middle on the same trace set object (two '
+            'with every counter precision, runs that raise on a later batch between successful runs, backward / negative-bound slice frames, float sets with NaN / inf samples (raw and produced by a preprocess), 16-bit metadata with '
+            'intermediate values outgrowing one byte after the first batch / run, wide traces (1001-1500 samples) with long index-array / list frames differing only in the middle on the same trace set object (two '
             'Containers, frame re-assigned; projected on probe positions), container histories (the same Container '
             'used again by the same or another analysis object after preprocesses / frame were re-assigned or mutated in place); every update() logged; check_fn (property level): rows fed = SPEC '
             'rows in order, no empty batch, results/scores = one-shot update of a the STANDALONE distinguisher / discriminant; corr_fn (correspondence '
@@ -894,6 +948,29 @@ class RunKind(Kind):
                 c = make_case(rng, cls, k % 3 != 0, sizes, fail=(0 if first else 1, how),
                               step=rng.choice([None, None, 2, 5]) if k % 3 != 0 else None)
             yield c
+        # --- backward / negative / open slices as frames
+        for k in range(14):
+            cls, attack = combos[k % len(combos)]
+            c = None
+            while c is None:
+                bs = rng.randint(1, 5)
+                c = make_case(rng, cls, attack, sizes_for(rng, bs, rng.randint(1, 2)), frame_kind='pyslice')
+            yield c
+        # --- a few NaN / inf samples (raw, or produced by a preprocess): every trace is still used exactly once
+        for k in range(16):
+            c = None
+            while c is None:
+                bs = rng.randint(1, 5)
+                c = make_case(rng, ('CPA', 'DPA')[k % 2], k % 4 < 2, sizes_for(rng, bs, rng.randint(1, 2)), nans=True)
+            yield c
+        # --- intermediate values that outgrow one byte after the first batch / the first run (16-bit words, classes above 255)
+        for k in range(18):
+            cls = CLASSES[k % 6]
+            c = None
+            while c is None:
+                bs = rng.randint(1, 4)
+                c = make_case(rng, cls, k % 3 != 2, [(rng.randint(bs + 1, 3 * bs + 2), bs)] + sizes_for(rng, bs, rng.randint(1, 2)), wide16=True)
+            yield c
         # --- wide traces, long index frames that differ only in the middle, on the same trace set object
         for k in range(12):
             yield make_wide_case(rng, ('CPA', 'DPA')[k % 2], ('same_ths', 'reuse', 'same_ths', 'fresh')[k % 4], ('array', 'array', 'list')[k % 3])
@@ -907,7 +984,7 @@ class RunKind(Kind):
                             c = make_case(rng, cls, attack, [(n, bs)], nchain=2)
                         yield c
         # --- random structure
-        nrand = 550 if not thorough else 3000
+        nrand = 470 if not thorough else 3000
         for _ in range(nrand):
             cls, attack = rng.choice(combos)
             bs = rng.choice([1, 2, 2, 3, 3, 4, 5, 6, 7, 8, 9, 10, 10, 11, 12, 20])
@@ -923,6 +1000,7 @@ class RunKind(Kind):
             if hist is None and nruns >= 2 and r2 < 0.12:
                 fail = (rng.randrange(nruns - 1), rng.choice(['preprocess', 'sf']))
             c = make_case(rng, cls, attack, sizes, step=step, history=hist, wide=0.12 <= r2 < 0.27,
+                          nans=cls in ('CPA', 'DPA') and 0.6 <= r2 < 0.72, wide16=0.72 <= r2 < 0.8,
                           scaled=([rng.choice(['linspace', 'arange_div', 'literal', 'cumsum', 'arange_step']), rng.choice([6, 8, 11, 11, 21])]
                                   if cls == 'MIA' and 0.27 <= r2 < 0.6 else False), fail=fail)
             if c is not None:
@@ -935,11 +1013,12 @@ class RunKind(Kind):
         log = []
         den = case['runs'][0].get('grid')
 
+        nans = any(r.get('nans') for r in case['runs'])
         probe = case.get('probe')       # wide traces: only these positions of the framed trace are exported
 
         class Logged(cls):
             def update(self, traces, data):
-                t = int_rows(np.asarray(traces)[:, probe] if probe else traces, den)
+                t = int_rows(np.asarray(traces)[:, probe] if probe else traces, den, nonfinite=nans)
                 d = int_rows(np.asarray(data).reshape(np.asarray(data).shape[0], -1)) if np.asarray(data).ndim >= 1 else None
                 log.append({'traces': t, 'data': d, 'n_traces': int(np.asarray(traces).shape[0]), 'n_data': int(np.asarray(data).shape[0])})
                 return super().update(traces=traces, data=data)
@@ -980,7 +1059,7 @@ class RunKind(Kind):
                         s = P[p](s)
                     # a run() that raised contributes the rows it handed to update() before
                     all_t.append(np.asarray(s, dtype='float64')[:fed])
-                    all_pt.append(np.array(run['meta'], dtype='uint8').reshape(n, -1)[:fed])
+                    all_pt.append(np.array(run['meta'], dtype=run.get('meta_dtype', 'uint8')).reshape(n, -1)[:fed])
                 scared.set_batch_size(None)
                 obs['updates'] = log
                 obs['processed'] = int(a.processed_traces)
@@ -1013,7 +1092,7 @@ class RunKind(Kind):
             fed = obs['fed'][i] if 'raised' not in obs and i < len(obs['fed']) else 0
             runs.append('{| r2_rows := %s; r2_frame := %s; r2_chain := %s; r2_setting := %s; r2_itemsize := %s; r2_obs_bs := %s; '
                         'r2_fail := %s; r2_obs_fed := %s |}' % (
-                            C.coq_list([coq_zrow(s, m) for s, m in zip(run['samples'], run['meta'])]), coq_frame(run['frame']),
+                            C.coq_list([coq_zrow(s, m) for s, m in zip(run['samples'], run['meta'])]), coq_frame(run['frame'], len(run['samples'][0])),
                             C.coq_list([PREP_COQ[p] for p in run['chain']]), coq_setting(run['setting']), C.coq_z(ITEMSIZE[run['dtype']]),
                             C.coq_option(ob, C.coq_z), C.coq_option(run.get('fail'), C.coq_nat), C.coq_nat(fed)))
         head = 'c2_guesses := %s; c2_model := %s; c2_prec := %s; c2_step := %s; c2_runs := %s; c2_disc := %s' % (
@@ -1054,7 +1133,7 @@ class RunKind(Kind):
              'prec': case['prec'], 'chain_len': len(case['runs'][0]['chain']), 'frame': case['runs'][0]['frame'][0],
              'setting': case['runs'][0]['setting'][0], 'auto_partitions': case['cls'] in PARTITIONED and case['partitions'] is None,
              'fail': next((r['fail_how'] for r in case['runs'] if r.get('fail') is not None), 'none'),
-             'data': 'wide_traces' if case.get('probe') else 'on_grid_' + case['runs'][0]['grid'][0] if case['runs'][0].get('grid') else 'wide_bytes' if case['model'][0] == 'hww' or any(
+             'data': 'wide_traces' if case.get('probe') else 'nan_inf' if case['runs'][0].get('nans') else '16bit_meta' if case['runs'][0].get('meta_dtype') else 'on_grid_' + case['runs'][0]['grid'][0] if case['runs'][0].get('grid') else 'wide_bytes' if case['model'][0] == 'hww' or any(
                  v > 15 for r in case['runs'] for m in r['meta'] for v in m if v != SENTINEL_META) else 'nibbles',
              'model': case['model'][0] + (str(case['model'][1]) if case['model'][0] == 'hww' else ''),
              'history': '+'.join(sorted({'reuse' for r in case['runs'] if r.get('reuse') is not None} |
